@@ -66,6 +66,20 @@ def percentile_vcs():
     return vcs, fns
 
 
+def first_of(pred):
+    """selects the first definition (in AST order) that satisfies pred: the instantiations share one template body"""
+    seen = []
+
+    def sel(d):
+        if not pred(d):
+            return False
+        key = (astload.param_types(d), astload.template_args(d))
+        if not seen:
+            seen.append(key)
+        return seen[0] == key
+    return sel
+
+
 def build(tier):
     common = dict(self_struct='struct nv_histogram', types=TYPES, calls=STD, members=[(r'^bins\|', 'nv_hist_bins')])
     bin_f64 = Fn('histogram_bin_f64', TU, 'bin', flt='nano::histogram_t', select=targs('double'), **common)
@@ -105,9 +119,18 @@ def build(tier):
                 Target('update_op', [updop()], 'specs/C20/update.h'), Target('update_bin', [updbin], 'specs/C20/update.h')]
     targets += [Target('from_position_sorted', [fps], 'specs/C20/stats.h'), Target('from_position_unsorted', [fpu], 'specs/C20/stats.h'),
                 Target('median_sorted', [med_s], 'specs/C20/stats.h'), Target('median', [med], 'specs/C20/stats.h')]
+    # bounded stand-in: the position arithmetic in IEEE doubles for integer percentages and n <= 64 (specs/C20/position.h)
+    pos = Fn('detail_percentile', TU, 'percentile', flt='nano::detail::percentile', uf_float=False,
+             select=first_of(lambda d: len(astload.param_types(d)) == 4 and astload.param_types(d)[0] == 'double *'),
+             types=[(r'\(lambda', 'int32_t')],
+             calls=[(r'^distance\|', '({1} - {0})'), (r'^floor\|', 'floor({0})'), (r'^ceil\|', 'ceil({0})'),
+                    (r'^operator\(\)\|.*\(lambda', 'nv_from_position({1})')])
+    tpos = Target('percentile_position_ieee', [pos], 'specs/C20/position.h', timeout=200)
+    tpos.bound = 'n <= 64 values, integer percentages 0..100'
+    tpos.note = 'IEEE evaluation of the percentile position: lpos/rpos are the exact floor/ceiling of P(n-1)/100'
     pv, pf = percentile_vcs()
     return {
-        'targets': targets, 'vcs': pv, 'functions': pf,
+        'targets': targets, 'vcs': pv, 'functions': pf, 'bounded': [tpos],
         'decided': ['histogram_t::update: bins = thresholds+1 slots, the bins are consecutive ranges of the sorted values that tile them exactly once, a value lies in bin b only if t_{b-1} <= v < t_b, count = range length; update_bin: count/mean/median over exactly its range, NaN for an empty bin', 'the position->value lambdas of percentile_sorted (value stored at the position) and percentile (k-th smallest via nth_element); median / median_sorted are the 50th percentile', 'detail::percentile (all instantiations): result is the sorted value at position p(n-1)/100 (midpoint when fractional), positions stay in [0, n-1] (over the reals, n <= 2^46)', 'bin(v) equals the counting rule #{j: t_j <= v} for every finite real v and every integer |v| <= 2^53, for every sorted threshold list of symbolic length'],
         'not_decided': ['float value of the bin means', 'make_from_exponents (log/pow)'],
         'assumptions': ['std::nth_element leaves at position nth the element a full sort would put there (assumed contract)', 'IEEE double treated as real for the percentile position arithmetic', 'std::upper_bound returns the partition point of a partitioned range (assumed contract, stated at a ghost index)',
@@ -121,6 +144,22 @@ def replay(rp):
     import replaylib
     out = {'reproduced': False, 'runs': []}
     exe = replaylib.build_header_only('replay/C20_replay.cpp', 'C20_replay')
+    if 'percentile_position' in rp['target']:
+        seen = set()
+        for fo in rp['failed_obligations']:
+            ce = fo.get('counterexample') or {}
+            try:
+                P, n = int(str(ce.get('nv_P')).rstrip('l')), int(str(ce.get('nv_n')).rstrip('l'))
+            except (TypeError, ValueError):
+                continue
+            if (P, n) in seen:
+                continue
+            seen.add((P, n))
+            rc, so, se = replaylib.run_driver(exe, ['pct', P, n])
+            out['runs'].append({'obligation': fo['id'], 'percentage': P, 'n': n, 'exit': rc, 'output': so.strip()})
+            if rc == 1:
+                out['reproduced'] = True
+        return out
     if 'update' in rp['target']:
         # counting-rule violations of update(): probe lists (integer- and real-valued, with ties, fractional and repeated
         # thresholds) around the solver's threshold / value witnesses
